@@ -44,13 +44,18 @@ class LineFirmware:
             out.append("ok")
         return out
 
+    @staticmethod
+    def _ok(command):
+        # a temperature poll is acknowledged with the readings on the ok line (Marlin / RepRap)
+        return "ok T:201.3 /200.0 B:60.1 /60.0" if command.split(";")[0].strip().startswith("M105") else "ok"
+
     def receive(self, line):
         """line: str without terminator. Returns list of reply lines."""
         self.wire.append(line)
         m = N_RE.match(line)
         if not line.startswith("N"):
             self.unnumbered.append(line)
-            return ["ok"]
+            return [self._ok(line)]
         if m is None:
             return self._resend("No Checksum with line number")
         k, body, cs = int(m.group(1)), m.group(2), int(m.group(3))
@@ -70,4 +75,4 @@ class LineFirmware:
             return self._resend("Line Number is not Last Line Number+1")
         self.last = k
         self.accepted.append(body)
-        return ["ok"]
+        return [self._ok(body)]
